@@ -52,23 +52,23 @@ theorem groupsOf_putUe_other (s : State) (a : Abmf.Store) (u : Ue) (supi : Bytes
 theorem update_state {guard : SplitGuard} {s : State} {sid : Bytes} {r : Req} {ue : Ue} {idx : Nat}
     (hu : findUe s.ues r.supi = some ue) (hl : lookupSid ue.cdr sid = some idx) :
     ∃ ue' : Ue, (update guard s sid r).1 =
-        { s with accts := (creditControl s.tariffs r.supi r.trigs s.accts ue.groups r.usages).1, ues := putUe s.ues ue' } ∧
-      ue'.supi = ue.supi ∧ ue'.groups = (creditControl s.tariffs r.supi r.trigs s.accts ue.groups r.usages).2.1 := by
+        { s with accts := acctsAfter s (creditControl (seenTariffs s) r.supi r.trigs (seenAccts s) ue.groups r.usages).1, ues := putUe s.ues ue' } ∧
+      ue'.supi = ue.supi ∧ ue'.groups = (creditControl (seenTariffs s) r.supi r.trigs (seenAccts s) ue.groups r.usages).2.1 := by
   simp only [update, hu, hl]
   exact ⟨_, rfl, rfl, rfl⟩
 
 theorem release_state {s : State} {sid : Bytes} {r : Req} {ue : Ue} {idx : Nat}
     (hu : findUe s.ues r.supi = some ue) (hl : lookupSid ue.cdr sid = some idx) :
     ∃ ue' : Ue, (release s sid r).1 =
-        { s with accts := (creditControl s.tariffs r.supi r.trigs s.accts ue.groups r.usages).1, ues := putUe s.ues ue' } ∧
-      ue'.supi = ue.supi ∧ ue'.groups = (creditControl s.tariffs r.supi r.trigs s.accts ue.groups r.usages).2.1 := by
+        { s with accts := acctsAfter s (creditControl (seenTariffs s) r.supi r.trigs (seenAccts s) ue.groups r.usages).1, ues := putUe s.ues ue' } ∧
+      ue'.supi = ue.supi ∧ ue'.groups = (creditControl (seenTariffs s) r.supi r.trigs (seenAccts s) ue.groups r.usages).2.1 := by
   simp only [release, hu, hl]
   exact ⟨_, rfl, rfl, rfl⟩
 
 theorem charged_step {guard : SplitGuard} {s : State} {op : Op} {supi' : Bytes} {trigs : List Nat}
     {groups : List (Int × RgState)} {us : List Usage} (h : chargedUsages s op = some (supi', trigs, groups, us)) :
-    (step guard s op).1.accts = (creditControl s.tariffs supi' trigs s.accts groups us).1 ∧
-    groupsOf (step guard s op).1 supi' = (creditControl s.tariffs supi' trigs s.accts groups us).2.1 ∧
+    (step guard s op).1.accts = acctsAfter s (creditControl (seenTariffs s) supi' trigs (seenAccts s) groups us).1 ∧
+    groupsOf (step guard s op).1 supi' = (creditControl (seenTariffs s) supi' trigs (seenAccts s) groups us).2.1 ∧
     (∀ supi, supi ≠ supi' → groupsOf (step guard s op).1 supi = groupsOf s supi) ∧
     groupsOf s supi' = groups := by
   have key : ∀ (sid : Bytes) (r : Req) (st' : State),
@@ -78,11 +78,11 @@ theorem charged_step {guard : SplitGuard} {s : State} {op : Op} {supi' : Bytes} 
           | none => none
           | some _ => some (r.supi, r.trigs, ue.groups, r.usages)) →
       (∀ ue idx, findUe s.ues r.supi = some ue → lookupSid ue.cdr sid = some idx →
-        ∃ ue' : Ue, st' = { s with accts := (creditControl s.tariffs r.supi r.trigs s.accts ue.groups r.usages).1,
+        ∃ ue' : Ue, st' = { s with accts := acctsAfter s (creditControl (seenTariffs s) r.supi r.trigs (seenAccts s) ue.groups r.usages).1,
                                    ues := putUe s.ues ue' } ∧
-          ue'.supi = ue.supi ∧ ue'.groups = (creditControl s.tariffs r.supi r.trigs s.accts ue.groups r.usages).2.1) →
-      st'.accts = (creditControl s.tariffs supi' trigs s.accts groups us).1 ∧
-      groupsOf st' supi' = (creditControl s.tariffs supi' trigs s.accts groups us).2.1 ∧
+          ue'.supi = ue.supi ∧ ue'.groups = (creditControl (seenTariffs s) r.supi r.trigs (seenAccts s) ue.groups r.usages).2.1) →
+      st'.accts = acctsAfter s (creditControl (seenTariffs s) supi' trigs (seenAccts s) groups us).1 ∧
+      groupsOf st' supi' = (creditControl (seenTariffs s) supi' trigs (seenAccts s) groups us).2.1 ∧
       (∀ supi, supi ≠ supi' → groupsOf st' supi = groupsOf s supi) ∧
       groupsOf s supi' = groups := by
     intro sid r st' hc hst
